@@ -270,6 +270,70 @@ theorem curry_script_refines (fn : CurryFn) (ts : List String) :
     simp only [List.foldl_cons]
     rw [ih _ _ h3, h1, h2]
 
+/-! ### caller-owned argument buffers (`cw` cases) -/
+
+theorem curryCall_refines (fn : CurryFn) (c : Curry) (a : List Int) (hcur : c.cur = none) :
+    (curryCallImpl fn c a).1.abs = (curryCallSpec fn c.abs a).1 ∧
+    (curryCallImpl fn c a).2 = (curryCallSpec fn c.abs a).2 ∧
+    (curryCallImpl fn c a).1.cur = none := by
+  unfold curryCallImpl curryCallSpec
+  obtain ⟨habs, hc⟩ := callSeq_abs fn c a hcur
+  refine ⟨habs, ?_, hc⟩
+  have hlog : (c.callSeq fn a).log = (c.abs.call fn a).log := by rw [← habs]; rfl
+  rcases Bool.eq_false_or_eq_true c.isDone with hd | hd
+  · have : (c.abs.call fn a).log = c.log := by simp [Spec.CurryS.call, Curry.abs, hd]
+    simp only [hlog, this]
+    simp [Curry.abs, hd]
+  · have : (c.abs.call fn a).log = c.log ++ [c.args ++ a] := by simp [Spec.CurryS.call, Curry.abs, hd]
+    simp only [hlog, this]
+    simp [Curry.abs, hd]
+
+/-- the simulation between the two-CurryDef states of the implementation model and of the Spec -/
+def CwRel (st : CwState Curry) (ss : CwState Spec.CurryS) : Prop :=
+  st.a.abs = ss.a ∧ st.a.cur = none ∧ st.b.abs = ss.b ∧ st.b.cur = none ∧ st.xs = ss.xs ∧ st.cap = ss.cap
+
+theorem cwExec_refines (fn : CurryFn) (st : CwState Curry) (ss : CwState Spec.CurryS) (h : CwRel st ss)
+    (cmd : CwCmd) :
+    CwRel (cwExec (curryCallImpl fn) (fun c => c.result) st cmd).1
+          (cwExec (curryCallSpec fn) (fun c => c.result) ss cmd).1 ∧
+    (cwExec (curryCallImpl fn) (fun c => c.result) st cmd).2 =
+      (cwExec (curryCallSpec fn) (fun c => c.result) ss cmd).2 := by
+  obtain ⟨ha, hac, hb, hbc, hx, hcap⟩ := h
+  cases cmd with
+  | buf cap l => exact ⟨⟨ha, hac, hb, hbc, rfl, rfl⟩, rfl⟩
+  | callA l =>
+    obtain ⟨r1, r2, r3⟩ := curryCall_refines fn st.a (l.getD st.xs) hac
+    simp only [cwExec]
+    rw [← ha, ← hx]
+    exact ⟨⟨r1, r3, hb, hbc, rfl, hcap⟩, r2⟩
+  | callB l =>
+    obtain ⟨r1, r2, r3⟩ := curryCall_refines fn st.b (l.getD st.xs) hbc
+    simp only [cwExec]
+    rw [← hb, ← hx]
+    exact ⟨⟨ha, hac, r1, r3, rfl, hcap⟩, r2⟩
+  | write i v => exact ⟨⟨ha, hac, hb, hbc, by simp [cwExec, hx], hcap⟩, rfl⟩
+  | view => exact ⟨⟨ha, hac, hb, hbc, hx, hcap⟩, by simp [cwExec, hx, hcap]⟩
+  | resA => exact ⟨⟨ha, hac, hb, hbc, hx, hcap⟩, by simp [cwExec, ← ha, Curry.abs]⟩
+  | resB => exact ⟨⟨ha, hac, hb, hbc, hx, hcap⟩, by simp [cwExec, ← hb, Curry.abs]⟩
+  | bad => exact ⟨⟨ha, hac, hb, hbc, hx, hcap⟩, rfl⟩
+
+theorem cw_script_refines (fn : CurryFn) (cmds : List CwCmd) :
+    ∀ (st : CwState Curry) (ss : CwState Spec.CurryS) (outs : List String), CwRel st ss →
+      (cmds.foldl (fun (acc : CwState Curry × List String) c =>
+          ((cwExec (curryCallImpl fn) (fun c => c.result) acc.1 c).1,
+           (cwExec (curryCallImpl fn) (fun c => c.result) acc.1 c).2 :: acc.2)) (st, outs)).2 =
+      (cmds.foldl (fun (acc : CwState Spec.CurryS × List String) c =>
+          ((cwExec (curryCallSpec fn) (fun c => c.result) acc.1 c).1,
+           (cwExec (curryCallSpec fn) (fun c => c.result) acc.1 c).2 :: acc.2)) (ss, outs)).2 := by
+  induction cmds with
+  | nil => intro _ _ _ _; rfl
+  | cons c rest ih =>
+    intro st ss outs h
+    obtain ⟨h1, h2⟩ := cwExec_refines fn st ss h c
+    simp only [List.foldl_cons]
+    rw [h2]
+    exact ih _ _ _ h1
+
 /-! ### no Call is lost or duplicated -/
 
 def Curry.pendingCount (c : Curry) : Nat := (c.pending.map List.length).sum
